@@ -1,11 +1,11 @@
 #!/usr/bin/env python3
-"""mkmutant.py <name> <path relative to /repo> <old> <new>  — full copy of the file with one replacement, under /verif/mutants/<name>/."""
-import os, sys
+"""mkmutant.py <name> <path relative to /repo> <old> <new>  — writes /verif/mutants/<name>.patch: one replacement in the current file."""
+import os, sys, difflib
 name, rel, old, new = sys.argv[1:5]
 src = open(os.path.join("/repo", rel)).read()
 if src.count(old) != 1:
     sys.exit(f"{name}: pattern occurs {src.count(old)} times in {rel}")
-dst = os.path.join("/verif/mutants", name, rel)
-os.makedirs(os.path.dirname(dst), exist_ok=True)
-open(dst, "w").write(src.replace(old, new))
-print("mutant", name, "->", dst)
+mut = src.replace(old, new)
+d = "".join(difflib.unified_diff(src.splitlines(True), mut.splitlines(True), "a/" + rel, "b/" + rel, n=3))
+open(os.path.join("/verif/mutants", name + ".patch"), "w").write(d)
+print("mutant", name)
